@@ -35,6 +35,15 @@ RULE = (
     "drain_old, drain_new, peek_cur, len, iter} on ONE sampler object that opens an iterator before its last "
     "operation; iterators still open at the end are drained oldest first; whatever is read from an iterator "
     "opened for epoch e must be, prefix by prefix, what a fresh sampler created at epoch e yields for the rank. "
+    "Loader-flavour part (secondary entry points): the sampler inside SpectDataLoader, LangDataLoader, "
+    "ContextWindowDataLoader and the deprecated ContextWindowTraining/Evaluation and SpectTraining/Evaluation loaders, "
+    "on 3 tmpfs corpora (4,5,6 utterances), no group and every rank of simulated groups of 2 and 3, drop_last both, "
+    "{sequential, shuffle seeds 0,1}, batch_size 1..2, on_uneven_distributed raise/uneven/ignore (Spect/Lang; also 2 "
+    "length buckets): what loader.batch_sampler.sampler yields / reports for epochs 0,1 must equal a directly built "
+    "sampler of the effective mode (ContextWindow*: ignore; others: drop if drop_last else the given mode), the loader "
+    "(batch_size 1) must visit exactly these utterances, per-rank lists go through the partition oracle; lifecycle: "
+    "deepcopy / pickle of the mid-history loader and of its sampler, and deepcopy / pickle / torch.save / used+deepcopy of "
+    "bare samplers (falsy options init_epoch 0, base_seed 0), made inside the group and read outside it. "
     "Distinct by construction; non-trivial = N >= 2. traces = histories also run without the seam "
     "(W=1) or inside a REAL gloo process group of 2 (thorough: 2 and 3) processes and compared."
 )
@@ -45,6 +54,9 @@ ASSUMPTIONS = [
     "subprocesses) is used for a conformance subset only",
     "an iterator handed out for an epoch is expected to stay valid while the sampler is used further (held, "
     "half-consumed and abandoned iterators; at most 4/5 interleaved operations, at most that many live iterators)",
+    "ContextWindow loaders are documented not to support torch.distributed (every process the same batches), hence "
+    "effective mode 'ignore' whatever drop_last; Spect/Lang loaders replace the mode by 'drop' when drop_last is set "
+    "(their code and docs); deprecated loaders are constructed with their default arguments",
     "documented behaviour assumed beyond the property text: strict mode raises ValueError; base seeds "
     "a != b must not give order(a, epoch b) == order(b, epoch a) (Warnings section of EpochRandomSampler)",
 ]
@@ -70,6 +82,7 @@ def shards(tier, seed):
         for kind in (None, 0, 1):
             out.append({"ops": True, "N": N, "seed": kind})
             out.append({"live": True, "N": N, "seed": kind})
+    out += [{"flavours": True, "i": i, "of": 7} for i in range(7)]
     return out
 
 
@@ -481,14 +494,223 @@ def _live_part(ctx, N, kind, tier):
                               "example": ["open_cur", "open_next", "drain_old"]}})
 
 
+# ----------------------------------------------- secondary entry points: the sampler inside every loader ----
+FLAVOURS = ("SpectDataLoader", "LangDataLoader", "ContextWindowDataLoader", "ContextWindowTrainingDataLoader",
+            "ContextWindowEvaluationDataLoader", "SpectTrainingDataLoader", "SpectEvaluationDataLoader")
+FLAVOUR_CORPORA = [(3, 1, 2, 2), (2, 3, 1, 1, 3), (1, 3, 2, 2, 3, 1)]
+
+
+def _flavour_loader(flavour, path, bs, drop, B, seed_, mode, init_epoch=0):
+    """seed_ None = sequential.  Every loader is asked for utterance ids so that visits can be observed."""
+    import pydrobert.torch.data as data
+
+    shuffle = seed_ is not None
+    if flavour.startswith("ContextWindow"):
+        p = data.ContextWindowDataLoaderParams(batch_size=bs, drop_last=drop, context_left=1, context_right=0)
+        kw = dict(suppress_uttids=False, seed=seed_, init_epoch=init_epoch, shuffle=shuffle)
+        return getattr(data, flavour)(path, p, **kw)
+    if flavour == "LangDataLoader":
+        p = data.LangDataLoaderParams(batch_size=bs, drop_last=drop, num_length_buckets=B)
+        kw = dict(shuffle=shuffle, seed=seed_, init_epoch=init_epoch, suppress_uttids=False)
+        if mode is not None:
+            kw["on_uneven_distributed"] = mode
+        return data.LangDataLoader(os.path.join(path, "ref"), p, **kw)
+    p = data.SpectDataLoaderParams(batch_size=bs, drop_last=drop, num_length_buckets=B)
+    kw = dict(shuffle=shuffle, seed=seed_, init_epoch=init_epoch, suppress_uttids=False)
+    if flavour == "SpectDataLoader":
+        if mode is not None:
+            kw["on_uneven_distributed"] = mode
+        kw.update(suppress_alis=True, tokens_only=True)
+    return getattr(data, flavour)(path, p, **kw)
+
+
+def _visited(flavour, loader):
+    out = []
+    for batch in loader:
+        out.extend(int(u[1:]) for u in batch[-1])
+    return out
+
+
+def _flavour_case(ctx, flavour, corpus, path, W, rank, bs, drop, B, seed_, mode, lifecycle=False):
+    """The sampler clauses on the sampler INSIDE a loader: what the loader's sampler yields / reports for epochs
+    0 and 1 must be what a directly constructed sampler of the effective mode yields for this rank, the loader
+    itself (batch_size 1) must visit exactly these utterances, and copies made the way DataLoader workers make them
+    (deepcopy / pickle, fresh and mid-history, read outside the process group) must go on identically."""
+    import copy
+    import pickle
+
+    N = corpus.n
+    if flavour.startswith("ContextWindow"):
+        eff = "ignore"  # documented: no torch.distributed support, every process returns the same batches
+    else:
+        eff = "drop" if drop else (mode or "raise")
+    case = {"kind": "flavour", "flavour": flavour, "lens": list(corpus.lens), "W": W, "rank": rank, "bs": bs,
+            "drop": drop, "B": B, "seed": seed_, "mode": mode, "lifecycle": lifecycle}
+    sig = {"api": flavour, "drop_last": drop, "distributed": W > 1}
+
+    def bad(symptom, detail, **extra):
+        ctx.violation(dict(sig, symptom=symptom, **extra), case, detail)
+        return None
+
+    def inside(f):
+        if W > 1:
+            with SimulatedGroup(W, rank):
+                return f()
+        return f()
+
+    must_raise = W > 1 and eff == "raise" and N % W != 0
+    try:
+        loader = inside(lambda: _flavour_loader(flavour, path, bs, drop, B, seed_, mode))
+    except Exception as e:
+        if must_raise and isinstance(e, ValueError):
+            ctx.outcome(["raise", flavour])
+            return "raise"
+        return bad("raises", {"error": str(e)[-300:]}, type=type(e).__name__, where="constructor")
+    if must_raise:
+        return bad("no-raise-on-indivisible", {"N": N, "W": W})
+    try:
+        smp = loader.batch_sampler.sampler
+        if len(loader.dataset) != N:
+            return bad("loader-sees-wrong-number-of-utterances", {"stored": N, "seen": len(loader.dataset)})
+        if seed_ is not None and getattr(smp, "base_seed", None) != seed_:
+            return bad("seed-not-passed-to-sampler", {"seed": seed_, "base_seed": getattr(smp, "base_seed", None)})
+        ref = [inside(lambda: _take(_mk(seed_, N, e, eff))) for e in (0, 1, 2)]
+        for e in (0, 1):
+            got = [int(i) for i in smp.get_samples_for_epoch(e)]
+            if got != ref[e]:
+                return bad("loader-sampler-differs-from-direct-sampler", {"epoch": e, "effective_mode": eff,
+                                                                          "direct": ref[e], "in_loader": got})
+        if len(smp) != len(ref[0]):
+            return bad("len-differs-from-yielded", {"len": len(smp), "expected": len(ref[0]), "effective_mode": eff})
+        hist = []
+        for e in (0, 1):
+            seen = _visited(flavour, loader)
+            hist.append(seen)
+            if bs == 1 and seen != ref[e]:
+                return bad("loader-visits-differ-from-sampler-order", {"epoch": e, "visited": seen, "sampler": ref[e]})
+            if not set(seen) <= set(ref[e]) or len(set(seen)) != len(seen):
+                return bad("loader-visits-outside-rank-share", {"epoch": e, "visited": seen, "share": ref[e]})
+        if smp.epoch != 2:
+            return bad("epoch-counter", {"expected": 2, "observed": smp.epoch})
+        if lifecycle:
+            # the loader is now mid-history (next epoch 2); copies are read OUTSIDE the group, as a worker process would
+            for name, mk in (("deepcopy", lambda o: copy.deepcopy(o)), ("pickle", lambda o: pickle.loads(pickle.dumps(o)))):
+                for what, obj in (("sampler", smp), ("loader", loader)):
+                    ctx.case(1, 1)
+                    try:
+                        c = mk(obj)
+                    except Exception as e:
+                        ctx.count("lifecycle_copy_unsupported_%s_%s" % (name, what))
+                        continue
+                    cs = c if what == "sampler" else c.batch_sampler.sampler
+                    L = len(cs)
+                    got = _take(cs) if what == "sampler" else None
+                    if what == "loader":
+                        got = _visited(flavour, c)
+                        if bs != 1:
+                            if not set(got) <= set(ref[2]):
+                                return bad("copy-differs-from-original", {"variant": name, "object": what, "visited": got,
+                                                                          "share": ref[2]}, variant=name)
+                            continue
+                    if got != ref[2] or L != len(ref[2]):
+                        return bad("copy-differs-from-original", {"variant": name, "object": what, "epoch": 2,
+                                                                  "expected": ref[2], "observed": got, "len": L},
+                                   variant=name)
+            if smp.epoch != 2:
+                return bad("copy-shares-state-with-original", {"epoch": smp.epoch})
+    except Exception as e:
+        return bad("raises", {"error": str(e)[-300:]}, type=type(e).__name__, where="iteration")
+    ctx.outcome([flavour, eff, W, len(ref[0]), bs])
+    return ref
+
+
+def _flavour_part(ctx, spec, tier, seed):
+    from checks import _c14_common as C14
+
+    with C14.Scratch("c13-flavours-%d" % spec["i"]) as root:
+        units = [(f, lens) for f in FLAVOURS for lens in FLAVOUR_CORPORA]
+        for flavour, lens in units[spec["i"]::spec["of"]]:
+            corpus = C14.Corpus(lens, seed)
+            path = corpus.write(root, "A")
+            N = corpus.n
+            primary = flavour in ("SpectDataLoader", "LangDataLoader")
+            modes = ("raise", "uneven", "ignore") if primary else (None,)
+            for drop, seed_, mode, bs in itertools.product((False, True), (None, 0, 1), modes, (1, 2)):
+                for B in ((1, 2) if (primary and bs == 1) else (1,)):
+                    for W in (1, 2, 3):
+                        per_rank = []
+                        for rank in range(W):
+                            ctx.case(1, 1)
+                            ctx.transitions += 2
+                            ctx.state(["flavour", flavour, list(lens), W, rank, drop, seed_, mode, bs, B])
+                            per_rank.append(_flavour_case(ctx, flavour, corpus, path, W, rank, bs, drop, B, seed_, mode,
+                                                          lifecycle=(bs == 1 and B == 1 and rank == W - 1)))
+                        if any(x is None or x == "raise" for x in per_rank):
+                            if any(x == "raise" for x in per_rank) and not all(x == "raise" for x in per_rank if x is not None):
+                                ctx.violation({"api": flavour, "symptom": "only-some-ranks-raise"},
+                                              {"kind": "flavour-partition", "flavour": flavour, "lens": list(lens)}, {})
+                            continue
+                        if flavour.startswith("ContextWindow"):
+                            eff = "ignore"
+                        else:
+                            eff = "drop" if drop else mode or "raise"
+                        for e in (0, 1):
+                            why = O.check_partition([x[e] for x in per_rank], N, W, eff)
+                            if why:
+                                ctx.violation({"api": flavour, "symptom": why, "drop_last": drop, "distributed": W > 1},
+                                              {"kind": "flavour", "flavour": flavour, "lens": list(lens), "W": W, "rank": 0,
+                                               "bs": bs, "drop": drop, "B": B, "seed": seed_, "mode": mode,
+                                               "lifecycle": False, "partition": True},
+                                              {"epoch": e, "effective_mode": eff, "per_rank": [x[e] for x in per_rank]})
+                                break
+    ctx.sample({"flavour_part": {"flavours": list(FLAVOURS), "corpora": FLAVOUR_CORPORA,
+                                 "example": {"flavour": "ContextWindowDataLoader", "W": 3, "drop_last": True,
+                                             "expected": "every rank the full epoch"}}})
+
+
+def _sampler_lifecycle(ctx, N, kind):
+    """deepcopy / pickle / torch.save of a bare sampler, fresh and mid-history, created inside a group and read
+    outside it; falsy options (init_epoch 0, base_seed 0) included through the kinds."""
+    from mc.guards import lifecycle_variants
+
+    for W, rank in ((1, 0), (2, 1), (3, 0)):
+        for mode in ("uneven", "drop", "ignore"):
+            with SimulatedGroup(W, rank):
+                ref = [_take(_mk(kind, N, e, mode)) for e in range(3)]
+
+                def make():
+                    return _mk(kind, N, 0, mode)
+
+                def used(o):
+                    list(o)
+
+                variants = list(lifecycle_variants(make, used, kinds=("deepcopy", "pickle", "torch.save", "used+deepcopy")))
+            for name, v in variants:  # read outside the group, as in a worker process
+                ctx.case(1, 1 if N >= 2 else 0)
+                ctx.transitions += 1
+                e = v.epoch
+                want_e = 1 if name == "used+deepcopy" else 0
+                L = len(v)
+                got = _take(v)
+                if e != want_e or got != ref[want_e] or L != len(got) or v.epoch != want_e + 1:
+                    ctx.violation({"api": _api(kind), "symptom": "copy-differs-from-original", "variant": name, "mode": mode},
+                                  {"kind": "sampler-lifecycle", "N": N, "seed": kind},
+                                  {"W": W, "rank": rank, "epoch": e, "expected": ref[want_e], "observed": got, "len": L})
+                    return
+
+
 def run_shard(spec, tier, seed):
     ctx = Ctx()
     b = _bounds(tier)
+    if "flavours" in spec:
+        _flavour_part(ctx, spec, tier, seed)
+        return ctx
     if "live" in spec:
         _live_part(ctx, spec["N"], spec["seed"], tier)
         return ctx
     if "ops" in spec:
         _ops_part(ctx, spec["N"], spec["seed"], tier)
+        _sampler_lifecycle(ctx, spec["N"], spec["seed"])
         return ctx
     if "real" in spec:
         _real_group(ctx, spec["real"], tier)
@@ -523,6 +745,20 @@ def run_shard(spec, tier, seed):
 def replay(case):
     ctx = Ctx()
     kind = case.get("kind")
+    if kind == "flavour":
+        from checks import _c14_common as C14
+
+        with C14.Scratch("c13-replay") as root:
+            corpus = C14.Corpus(case["lens"], int(os.environ.get("VERIF_SEED", "0") or 0))
+            path = corpus.write(root, "A")
+            ranks = range(case["W"]) if case.get("partition") else [case["rank"]]
+            for r in ranks:
+                _flavour_case(ctx, case["flavour"], corpus, path, case["W"], r, case["bs"], case["drop"], case["B"],
+                              case["seed"], case["mode"], case["lifecycle"])
+        return ctx
+    if kind == "sampler-lifecycle":
+        _sampler_lifecycle(ctx, case["N"], case["seed"])
+        return ctx
     if kind == "live":
         _live_history(ctx, case["N"], case["W"], case["rank"], case["mode"], case["seed"], tuple(case["ops"]), {})
         return ctx
